@@ -107,7 +107,7 @@ Definition eng_check (which : N) (c : eng_case) (o : obs) : bool * bool * obs :=
     else if which =? 3 then (negb (c03_agree e o), negb (c03_oracle c o), e)
     else if which =? 4 then (negb (c04_agree e o), negb (c04_oracle c o), e)
     else if which =? 6 then (negb (c06_agree e o), negb (c06_oracle c o), e)
-    else if which =? 17 then (negb (c17_agree e o), false, e)
+    else if which =? 17 then (negb (c17_calls_agree e o), false, e)
     else (negb (obs_eqb e o), false, e).
 Definition eng_check_text (which : N) (c o : obs) : option (bool * bool * obs) :=
   match d_eng_case c with Some c' => Some (eng_check which c' o) | None => None end.
